@@ -190,14 +190,19 @@ def compare(outdir, sub):
     meta = load_jsonl(os.path.join(outdir, f"{sub}.meta.jsonl"))
     req = load_jsonl(os.path.join(outdir, f"{sub}.req.jsonl"))
     mism = []
+    oracle = []
     for i in range(max(len(imp), len(mod))):
         a = imp[i] if i < len(imp) else "<missing>"
         b = mod[i] if i < len(mod) else "<missing>"
+        if isinstance(b, dict) and "oracle" in b:
+            # verdicts of the model's reference semantics about what the *implementation* reported
+            for o in b.pop("oracle"):
+                oracle.append({"property": o[0], "kind": o[1], "key": str(o[2:]), "detail": {"position": o[2:], "meta": meta[i] if i < len(meta) else None}})
         if canon(a) != canon(b):
             mism.append({"index": i, "impl": a, "model": b, "meta": meta[i] if i < len(meta) else None, "request": req[i] if i < len(req) else None})
     distinct = len({canon(r) for r in req})
     nontrivial = len({canon(r) for r, a in zip(req, imp) if a not in ([], None, {}, "")})
-    return {"cases": len(imp), "mismatches": mism, "distinct_requests": distinct, "distinct_nontrivial": nontrivial,
+    return {"cases": len(imp), "mismatches": mism, "oracle": oracle, "distinct_requests": distinct, "distinct_nontrivial": nontrivial,
             "samples": [{"request": req[i], "impl": imp[i]} for i in range(min(2, len(req)))]}
 
 
